@@ -78,8 +78,19 @@ def concretise(script, final=("quiesce", "stop")):
     return acts
 
 
-def run_scripts(wd, scripts, cfg, tag="e2e", final=("quiesce", "stop")):
-    cases = [{"id": i, "cfg": cfg, "acts": concretise(s, final)} for i, s in enumerate(scripts)]
+LANE_OUT = (None, 16, 48, None, 96)
+
+
+def run_scripts(wd, scripts, cfg, tag="e2e", final=("quiesce", "stop"), vary=True):
+    """vary: cycle the size of the agent's lane output buffers over the cases (None = default 4096): small
+    buffers make lane writes block so that the agent loop interleaves requests with a lane's pending output"""
+    cases = []
+    for i, s in enumerate(scripts):
+        c = dict(cfg)
+        lo = LANE_OUT[i % len(LANE_OUT)] if vary and "lane_out" not in c else None
+        if lo:
+            c["lane_out"] = lo
+        cases.append({"id": i, "cfg": c, "acts": concretise(s, final)})
     inp, outp = os.path.join(wd, tag + ".in.ndjson"), os.path.join(wd, tag + ".out.ndjson")
     core.write_ndjson(inp, cases)
     core.run_harness("h_runtime", ["e2e"], stdin_path=inp, stdout_path=outp, timeout=3000)
@@ -178,9 +189,13 @@ def validate_cases(out, prop, module, cases, results, project, constants, wd, wh
     """Project every log, validate the concatenation in one TLC run; on rejection isolate the failing
     case, report it, and continue with the rest.  Returns (accepted_cases, rejected_cases)."""
     per_case = []
+    hist = out.cov.setdefault("p_event_histogram", {})
     for c, r in zip(cases, results):
         ev = project(r["log"])
         per_case.append(ev)
+        for e in ev:       # which P actions the recorded executions exercised (vacuity check)
+            key = module + ":" + e["e"] + ("/" + str(e.get("kind") or e.get("op") or e.get("m")) if (e.get("kind") or e.get("op") or e.get("m")) else "")
+            hist[key] = hist.get(key, 0) + 1
     pending = list(range(len(cases)))
     accepted = 0
     rejected = 0
@@ -205,6 +220,9 @@ def validate_cases(out, prop, module, cases, results, project, constants, wd, wh
         for k in res.get("kf", []) or []:
             if kf_handler:
                 kf_handler(k)
+            else:
+                hit = [f for f in core.known_findings() if f["id"] == k and f["status"] == "open"]
+                out.known_finding("%s %s" % (k, hit[0]["what"] if hit else "(deviation action taken)"))
         if res["accepted"]:
             accepted += len(pending)
             pending = []
